@@ -26,6 +26,11 @@
 //!                    relay's `send_packets_recv` counter (inbound datagram frames handled) after the call
 //!                    minus its value at the call, and whether the connection gets closed in bounded time.
 //!                    result `true+q` = call returned true, at most SLACK frames handled afterwards, closed
+//!   `load <k> <p> <n> <c|*> <t|T>`    the same with the load TOWARDS k: peer connection p (another endpoint) has
+//!                    `t`: a burst of n datagrams for k's endpoint in its socket, `T`: a writer task sending them
+//!                    for as long as it takes (k's client is read by a task); the call is made from inside p's
+//!                    busy actor, so k's outbound queue is filled and keeps being filled.  Observed: packets
+//!                    written to clients (`send_packets_sent`) after the call returned, what k's client received
 //! After the script every open accept task is driven to its end (requested -> denied, admitted
 //! -> confirmed -> registered, in index order) and the final state is observed.
 //! output: `<result per op, comma separated> | <registry: id:active/inactive oldest first ...> | <served connections>`
@@ -128,8 +133,8 @@ struct Armed {
 struct Trigger {
     on: AtomicBool,
     armed: Mutex<Option<Armed>>,
-    /// (result of the call, `send_packets_recv` right after the call returned)
-    fired: Mutex<Option<(bool, u64)>>,
+    /// (result of the call, `send_packets_recv` and `send_packets_sent` right after the call returned)
+    fired: Mutex<Option<(bool, u64, u64)>>,
 }
 
 fn trigger() -> &'static Trigger {
@@ -183,7 +188,8 @@ impl tracing::Subscriber for FrameEvents {
         t.on.store(false, Ordering::Relaxed);
         let found = a.clients.disconnect(a.key, a.sel);
         let post = a.metrics.send_packets_recv.get();
-        *t.fired.lock().unwrap() = Some((found, post));
+        let post_sent = a.metrics.send_packets_sent.get();
+        *t.fired.lock().unwrap() = Some((found, post, post_sent));
     }
 }
 
@@ -463,9 +469,9 @@ impl Run {
             // close the connection while the tail of the backlog is still being written
             let _ = ok;
         }
-        let (found, post) = if direct {
+        let (found, post, _) = if direct {
             let found = self.clients.disconnect(key, sel_cid);
-            (found, self.metrics.send_packets_recv.get())
+            (found, self.metrics.send_packets_recv.get(), 0)
         } else {
             let fired = wait_until(|| t.fired.lock().unwrap().is_some()).await;
             if !fired {
@@ -474,7 +480,7 @@ impl Run {
                 *t.armed.lock().unwrap() = None;
                 self.fault("trigger-not-fired");
                 let found = self.clients.disconnect(key, sel_cid);
-                (found, self.metrics.send_packets_recv.get())
+                (found, self.metrics.send_packets_recv.get(), 0)
             } else {
                 t.fired.lock().unwrap().take().expect("fired")
             }
@@ -511,6 +517,159 @@ impl Run {
             self.load_hits.push((
                 "C08:revoked-not-closed-under-load".into(),
                 format!("connection {k} still registered / its socket still accepts writes {} after Clients::disconnect returned {found}", if flood { "2 s under sustained flood" } else { "3 s" }),
+            ));
+        }
+        format!("{found}+{tag}")
+    }
+
+    /// Revocation of connection `k` while peer connection `p` keeps `k`'s OUTBOUND packet queue
+    /// non-empty: `p`'s client has a burst of `n` datagrams for `k`'s endpoint in its socket (`t`) or
+    /// a writer task keeps sending them while a reader task drains `k`'s socket (`T`); the
+    /// `disconnect` call is made from inside `p`'s busy actor (at its TRIGGER_AT-th frame), i.e.
+    /// with `k`'s queue filled and more arriving.  Observed: packets written to clients
+    /// (`send_packets_sent`; only `k` is sent anything) after the call returned.
+    async fn op_load_towards(&mut self, k: usize, p: usize, n: usize, by_cid: bool, flood: bool) -> String {
+        let ready = |c: Option<&Conn>| c.is_some_and(|c| c.phase == Phase::Registered && c.client.is_some());
+        if p == k || !ready(self.conns.get(k)) || !ready(self.conns.get(p)) || self.conns[p].id == self.conns[k].id {
+            return "-".into();
+        }
+        let id = self.conns[k].id;
+        let k_key = secret(id).public();
+        let k_cid = self.conns[k].cid;
+        // datagrams for an endpoint go to its ACTIVE connection
+        let (snap, _) = self.clients.verif_snapshot();
+        if !snap.iter().any(|(e, a, _)| *e == k_key && *a == k_cid) {
+            return "-".into();
+        }
+        let frame = move |i: usize| ClientToRelayMsg::Datagrams {
+            dst_endpoint_id: k_key,
+            datagrams: Datagrams::from(&[0xC0u8, 0x08, 0x70, (i >> 8) as u8, i as u8, 2, 3, 4][..]),
+        };
+        let (key, sel_cid, reach) = self.prepare_disc(id, if by_cid { Some(k) } else { None }).expect("k exists");
+        let t = trigger();
+        *t.fired.lock().unwrap() = None;
+        let direct = !flood && n < TRIGGER_AT;
+        if !direct {
+            *t.armed.lock().unwrap() = Some(Armed {
+                countdown: TRIGGER_AT,
+                clients: self.clients.clone(),
+                key,
+                sel: sel_cid,
+                metrics: self.metrics.clone(),
+            });
+            t.on.store(true, Ordering::Relaxed);
+        }
+        let stop = Arc::new(AtomicBool::new(false));
+        let mut writer: Option<JoinHandle<Option<Client>>> = None;
+        let mut reader: Option<JoinHandle<usize>> = None;
+        if flood {
+            let mut pc = self.conns[p].client.take().expect("client");
+            let stop2 = stop.clone();
+            writer = Some(tokio::spawn(async move {
+                let mut sent = 0usize;
+                while !stop2.load(Ordering::Relaxed) {
+                    let burst = tokio::task::unconstrained(async {
+                        for i in 0..64 {
+                            pc.feed(frame(sent + i)).await?;
+                        }
+                        pc.flush().await
+                    })
+                    .await;
+                    if burst.is_err() {
+                        return None;
+                    }
+                    sent += 64;
+                    tokio::task::yield_now().await;
+                }
+                Some(pc)
+            }));
+            let mut kc = self.conns[k].client.take().expect("client");
+            reader = Some(tokio::spawn(async move {
+                let mut got = 0usize;
+                while let Some(Ok(m)) = kc.next().await {
+                    if matches!(m, RelayToClientMsg::Datagrams { .. }) {
+                        got += 1;
+                    }
+                }
+                got
+            }));
+        } else {
+            let pc = self.conns[p].client.as_mut().expect("client");
+            let _ = tokio::task::unconstrained(async {
+                let mut ok = true;
+                for i in 0..n {
+                    ok &= pc.feed(frame(i)).await.is_ok();
+                }
+                ok & pc.flush().await.is_ok()
+            })
+            .await;
+        }
+        let (found, _, post_sent) = if direct {
+            let found = self.clients.disconnect(key, sel_cid);
+            (found, 0, self.metrics.send_packets_sent.get())
+        } else if wait_until(|| t.fired.lock().unwrap().is_some()).await {
+            t.fired.lock().unwrap().take().expect("fired")
+        } else {
+            t.on.store(false, Ordering::Relaxed);
+            *t.armed.lock().unwrap() = None;
+            self.fault("trigger-not-fired");
+            let found = self.clients.disconnect(key, sel_cid);
+            (found, 0, self.metrics.send_packets_sent.get())
+        };
+        if found {
+            self.settle_gone(reach).await;
+        }
+        let mut closed = self.conns[k].phase == Phase::Closed;
+        // what the revoked client still gets: read its socket to the end
+        let mut client_rx = 0usize;
+        if let Some(r) = reader {
+            let abort = r.abort_handle();
+            match tokio::time::timeout(Duration::from_secs(2), r).await {
+                Ok(Ok(g)) => client_rx = g,
+                _ => {
+                    closed = false;
+                    abort.abort();
+                }
+            }
+        } else if let Some(kc) = self.conns[k].client.as_mut() {
+            let r = tokio::time::timeout(Duration::from_secs(2), async {
+                let mut got = 0usize;
+                while let Some(Ok(m)) = kc.next().await {
+                    if matches!(m, RelayToClientMsg::Datagrams { .. }) {
+                        got += 1;
+                    }
+                }
+                got
+            })
+            .await;
+            match r {
+                Ok(g) => client_rx = g,
+                Err(_) => closed = false,
+            }
+        }
+        stop.store(true, Ordering::Relaxed);
+        if let Some(w) = writer {
+            match tokio::time::timeout(Duration::from_secs(2), w).await {
+                Ok(Ok(Some(pc))) => self.conns[p].client = Some(pc),
+                _ => self.fault("peer-writer-lost"),
+            }
+        }
+        let after = self.metrics.send_packets_sent.get().saturating_sub(post_sent);
+        self.load_tags.push(if flood { "flood-towards".into() } else { "burst-towards".into() });
+        let mut tag = "q";
+        // both views: the relay's counter after the call, and what the client can have received at all
+        if after > SLACK || client_rx as u64 > post_sent + SLACK {
+            tag = "served";
+            self.load_hits.push((
+                "C08:served-after-revocation".into(),
+                format!("connection {k}: {after} datagrams written to the revoked client after Clients::disconnect returned {found} (client received {client_rx} in all, {post_sent} had been written at the call; {})", if flood { "peer keeps sending".to_string() } else { format!("peer burst of {n}") }),
+            ));
+        }
+        if !closed {
+            tag = "open";
+            self.load_hits.push((
+                "C08:revoked-not-closed-under-load".into(),
+                format!("connection {k} still registered / its socket still open after Clients::disconnect returned {found}, under traffic towards it"),
             ));
         }
         format!("{found}+{tag}")
@@ -568,7 +727,8 @@ enum Op {
     Reg(usize),
     Disc(u64, Option<usize>),
     Close(usize),
-    Load(usize, u64, usize, bool, bool),
+    /// k, dst endpoint (modes b f) or peer connection (modes t T), n, by connection id, mode
+    Load(usize, u64, usize, bool, char),
 }
 
 fn parse(payload: &str) -> Option<Vec<Op>> {
@@ -594,8 +754,10 @@ fn parse(payload: &str) -> Option<Vec<Op>> {
                     _ => return None,
                 },
                 match *mode {
-                    "f" => true,
-                    "b" => false,
+                    "f" => 'f',
+                    "b" => 'b',
+                    "t" => 't',
+                    "T" => 'T',
                     _ => return None,
                 },
             ),
@@ -647,7 +809,10 @@ async fn run_case(ops: Vec<Op>) -> Exec {
             Op::Reg(k) => run.op_reg(*k).await.into(),
             Op::Disc(id, sel) => run.op_disc(*id, *sel).await,
             Op::Close(k) => run.op_close(*k).await.into(),
-            Op::Load(k, dst, n, by_cid, flood) => run.op_load(*k, *dst, *n, *by_cid, *flood).await,
+            Op::Load(k, x, n, by_cid, mode) => match mode {
+                't' | 'T' => run.op_load_towards(*k, *x as usize, *n, *by_cid, *mode == 'T').await,
+                _ => run.op_load(*k, *x, *n, *by_cid, *mode == 'f').await,
+            },
         };
         run.results.push(r);
     }
@@ -822,6 +987,15 @@ impl Prop for C08 {
             out.push(format!("{three};conn 1;allow 3;confirm 3;reg 3;load 2 1 300 {sel} b"));
             out.push(format!("{three};load 1 3 300 {sel} b;load 2 3 0 {sel} f"));
         }
+        // (3d) revocation with load TOWARDS the revoked connection (its outbound queue is kept non-empty)
+        for sel in ["c", "*"] {
+            out.push(format!("{two};load 0 1 300 {sel} t"));
+            out.push(format!("{two};load 1 0 300 {sel} t"));
+            out.push(format!("{two};load 0 1 40 {sel} t"));
+            out.push(format!("{two};load 0 1 0 {sel} T"));
+            out.push(format!("{three};conn 1;allow 3;confirm 3;reg 3;load 2 3 300 {sel} t"));
+            out.push(format!("{three};conn 1;allow 3;confirm 3;reg 3;load 3 2 300 {sel} t;load 2 3 300 {sel} t"));
+        }
         // (4) random interleavings of 1-4 accept threads over 1-3 endpoints with requests and closes
         let max_conns = if tier == Tier::Thorough { 4 } else { 3 };
         while out.len() < n {
@@ -866,6 +1040,17 @@ impl Prop for C08 {
                     let sel = if rng.bool() || started == 0 { "*".to_string() } else { rng.usize_below(started).to_string() };
                     ops.push(format!("disc {id} {sel}"));
                 }
+                if started > 1 && rng.chance(1, 14) {
+                    let flood = rng.chance(1, 5);
+                    ops.push(format!(
+                        "load {} {} {} {} {}",
+                        rng.usize_below(started),
+                        rng.usize_below(started),
+                        if flood { 0 } else { *rng.pick(&[1u64, 64, 300]) },
+                        if rng.bool() { "c" } else { "*" },
+                        if flood { "T" } else { "t" }
+                    ));
+                }
                 if started > 0 && rng.chance(1, 12) {
                     let flood = rng.chance(1, 4);
                     ops.push(format!(
@@ -898,7 +1083,7 @@ impl Prop for C08 {
             let _ = tracing::subscriber::set_global_default(FrameEvents);
         });
         // a flooding writer needs a thread of its own to keep the relay-side socket non-empty
-        let flood = ops.iter().any(|o| matches!(o, Op::Load(_, _, _, _, true)));
+        let flood = ops.iter().any(|o| matches!(o, Op::Load(_, _, _, _, 'f' | 'T')));
         let rt = if flood {
             tokio::runtime::Builder::new_multi_thread().worker_threads(2).enable_all().build().expect("runtime")
         } else {
